@@ -362,10 +362,13 @@ def activate_repo(native_dir=None, repo=REPO):
 
 # --------------------------------------------------------------------------------------
 def load_known():
-    f = ROOT / "known_findings.json"
-    if not f.exists():
-        return []
-    return json.loads(f.read_text()).get("findings", [])
+    """known_findings.json (+ known_findings.d/*.json while properties are being built); never written at run time"""
+    out = []
+    files = [ROOT / "known_findings.json"] + sorted((ROOT / "known_findings.d").glob("*.json"))
+    for f in files:
+        if f.exists():
+            out += json.loads(f.read_text()).get("findings", [])
+    return out
 
 
 class Ctx:
@@ -377,6 +380,7 @@ class Ctx:
         self.distinct = set()
         self.samples = []
         self.hist = {}
+        self.finding_counts = {}
         self.findings = []        # property violated by the real code: dict(signature, what, case)
         self.disagreements = []   # model != code: dict(what, case)
         self.assumptions = []
@@ -397,8 +401,11 @@ class Ctx:
             self.samples.append(sample)
 
     def finding(self, signature, what, case):
-        if len(self.findings) < 200:
-            self.findings.append({"signature": signature, "what": what, "case": case})
+        """the REAL code violates the property on `case`; `signature` = entry/branch/predicate (stable, no data)"""
+        n = sum(1 for f in self.findings if f["signature"] == signature)
+        self.finding_counts[signature] = self.finding_counts.get(signature, 0) + 1
+        if n < 3:
+            self.findings.append({"signature": signature, "what": what, "case": jsonable(case)})
 
     def disagree(self, what, case):
         if len(self.disagreements) < 200:
@@ -432,6 +439,13 @@ def run_check(pid, tier, body, needs_native=False, regen=None, level_partial=Non
               trusted=(), extra_modules=()):
     """body(ctx) performs corpus + correspondence + oracle and fills ctx."""
     seed = int(os.environ.get("VERIF_SEED", "20260929"))
+    replay_data = None
+    if replay:
+        # a replay re-runs the recorded (seed, tier): every random choice derives from the one PRNG,
+        # so the recorded case is regenerated exactly; modules may also read ctx.replay["case"] directly
+        replay_data = json.loads(Path(replay).read_text())
+        seed = int(replay_data.get("seed", seed))
+        tier = replay_data.get("tier", tier)
     t0 = time.time()
     lean = LeanSide(pid, extra_modules)
     ctx = Ctx(pid, tier, seed, lean)
@@ -446,10 +460,7 @@ def run_check(pid, tier, body, needs_native=False, regen=None, level_partial=Non
             ctx.native, ninfo = native_build(REPO)
             ctx.extra["native_build"] = ninfo
         activate_repo(ctx.native)
-        if replay:
-            ctx.replay = json.loads(Path(replay).read_text())
-        else:
-            ctx.replay = None
+        ctx.replay = replay_data
         body(ctx)
     except subprocess.TimeoutExpired as e:
         infra_error = f"timeout: {e}"
@@ -462,6 +473,11 @@ def run_check(pid, tier, body, needs_native=False, regen=None, level_partial=Non
     known = [k for k in load_known() if k.get("property") == pid and k.get("status") == "known"]
     known_sigs = {k["signature"] for k in known}
     new_findings = [f for f in ctx.findings if f["signature"] not in known_sigs]
+    if replay_data is not None and replay_data.get("signature"):
+        hit = [f for f in ctx.findings if f["signature"] == replay_data["signature"]]
+        print(f"REPLAY property={pid} signature={replay_data['signature']} reproduced={'yes' if hit else 'no'}")
+        for f in hit[:1]:
+            print("  case:", json.dumps(f["case"], default=repr)[:600])
     seen_known = {f["signature"] for f in ctx.findings if f["signature"] in known_sigs}
     corr_ok = not ctx.disagreements
     violations = 0
@@ -515,7 +531,7 @@ def run_check(pid, tier, body, needs_native=False, regen=None, level_partial=Non
         "proofs_ok": bool(proofs_ok),
         "correspondence_ok": bool(corr_ok),
         "broken": lean.broken,
-        "oracle_findings": len(ctx.findings),
+        "oracle_findings": ctx.finding_counts,
         "known_findings_reproduced": sorted(seen_known),
         "lean_build_s": round(getattr(lean, "build_s", 0.0), 1),
     }
